@@ -184,7 +184,7 @@ fn cond_text(p: &Policy) -> String {
 }
 
 fn tpe_case(t: &mut Tape, rec: &mut Rec<'_>) {
-    let o = AuthOpts { schema: SchemaOpts { chains: true, ..SchemaOpts::default() }, max_policies: rec.size(3, 5), depth: rec.size(2, 3), path_budget: 3, traps: false };
+    let o = AuthOpts { closed_16: 0, schema: SchemaOpts { chains: true, ..SchemaOpts::default() }, max_policies: rec.size(3, 5), depth: rec.size(2, 3), path_budget: 3, traps: false };
     let c = match scase::gen_auth_case(t, &o) {
         Ok(c) => c,
         Err(e) => {
@@ -352,7 +352,7 @@ fn tpe_case(t: &mut Tape, rec: &mut Rec<'_>) {
 }
 
 fn query_case(t: &mut Tape, rec: &mut Rec<'_>) {
-    let o = AuthOpts { schema: SchemaOpts { chains: true, ..SchemaOpts::default() }, max_policies: rec.size(3, 5), depth: 2, path_budget: 3, traps: false };
+    let o = AuthOpts { closed_16: 0, schema: SchemaOpts { chains: true, ..SchemaOpts::default() }, max_policies: rec.size(3, 5), depth: 2, path_budget: 3, traps: false };
     let c = match scase::gen_auth_case(t, &o) {
         Ok(c) => c,
         Err(e) => {
